@@ -254,6 +254,8 @@ pub fn run_worker<E: Engine>(e: &E, tier: Tier, base_seed: u64, worker: u64, nwo
     let start = Instant::now();
     let deadline = start + std::time::Duration::from_secs(soft_secs);
     let mut rep = WorkerReport { worker, first_index: u64::MAX, ..Default::default() };
+    // audit-determinism: per-scenario event-log digests, one file per worker
+    let mut digest_log = std::env::var("VERIF_DIGEST_LOG").ok().filter(|s| !s.is_empty()).and_then(|p| std::fs::File::create(format!("{}.{}", p, worker)).ok());
     let mut idx = worker;
     while idx < count {
         if Instant::now() > deadline {
@@ -265,6 +267,10 @@ pub fn run_worker<E: Engine>(e: &E, tier: Tier, base_seed: u64, worker: u64, nwo
         let sc = e.generate(seed, idx, tier);
         let out = e.execute(&sc, &mut rep.stats);
         rep.evaluations += 1;
+        if let Some(log) = digest_log.as_mut() {
+            use std::io::Write;
+            let _ = writeln!(log, "{} {:016x}", idx, out.digest);
+        }
         rep.first_index = rep.first_index.min(idx);
         rep.last_index = idx;
         if out.nontrivial {
